@@ -21,7 +21,7 @@ ASSUMPTIONS = [
     "predictor matrices of `R ~ rhs` are compared with those of `rhs` alone and of `y ~ rhs` exactly",
 ]
 
-VALID = ["y", "x", "k", "I(x > 0)", "f", "g", "h", "u", "g[g1]", "g['g1']", 'h["lo"]', "w['a b']", 'w["c d"]', "w['sí']", 'w["sí"]', "f[zz]", "np.abs(y)", "binary(g, 'g1')",
+VALID = ["y", "x", "k", "I(x > 0)", "f", "g", "h", "u", "g[g1]", "g['g1']", 'h["lo"]', "w['a b']", 'w["c d"]', "w['sí']", 'w["sí"]', "w['C:\\new\\table']", "f[zz]", "np.abs(y)", "binary(g, 'g1')",
          "C(k)", "C(h)", "C(f)", "d['10']", 'd["2"]', "d[1]" if False else "d['1']", "prop(s, n)", "p(s, n)", "proportion(s, n)", "prop(s, 40)", "p(s, 40)", "prop(sb, 5)", "p(sb, 1)", "prop(s8, 200)", "proportion(s8, n)",
          "c1", "C(c1)", None]
 ONE_ROW = ["y", "np.abs(y)", "I(x > 0)", "f", "g", "g['g1']", "w['a b']", "prop(s, n)", "p(s, 40)", "prop(sb, 5)", "c1"]
@@ -37,8 +37,8 @@ def case_strategy(draw):
     succ = [(i * 5 + seed) % (t + 1) for i, t in enumerate(trials)]
     spec["cols"].append({"name": "s", "kind": "int", "values": succ})
     spec["cols"].append({"name": "n", "kind": "int", "values": trials})
-    wl = ["a b", "c d", "sí"]  # levels with spaces, and one that is not ASCII
-    spec["cols"].append({"name": "w", "kind": "str", "values": [wl[(i + seed) % 3] for i in range(n)]})
+    wl = ["a b", "c d", "sí", "C:\\new\\table"]  # levels with spaces, one that is not ASCII, one with backslashes
+    spec["cols"].append({"name": "w", "kind": "str", "values": [wl[(i + seed) % 4] for i in range(n)]})
     dl = ["10", "2", "1"]  # levels that look like numbers
     spec["cols"].append({"name": "d", "kind": "str", "values": [dl[(i * 2 + seed) % 3] for i in range(n)]})
     spec["cols"].append({"name": "sb", "kind": "bool", "values": [bool((i + seed) % 3 == 0) for i in range(n)]})  # successes held as booleans
@@ -59,7 +59,7 @@ def case_strategy(draw):
     d = draw(rich.design(response=None, max_groups=1))
     if draw(st.integers(0, 3)) == 0:
         # the shortest right-hand sides take their own route through the `~` operator
-        body = draw(st.sampled_from(["1", "x", "0 + x", "f", "(1 | g)", "1 + x"]))
+        body = draw(st.sampled_from(["1", "x", "0 + x", "f", "(1 | g)", "1 + x", "0 + x + 1", "x - 1 + 1", "-1 + f + 1 + x", "0 + f + x + 1"]))
         d = {"response": None, "intercept": "implicit", "terms": [], "groups": [], "formula": body}
     return {"response": resp, "valid": valid, "design": d, "frame": spec, "rhs_only_pred": draw(st.booleans())}
 
